@@ -502,3 +502,49 @@ Proof.
 Qed.
 
 End Perm.
+
+(* ------------------------------------------------------------------------------------------------------------ *)
+(* the hypotheses of the block theorems, bundled (Props/C03.v) *)
+Definition block_hyps (cfg : config) (l : ledger) (b : lblock) : Prop :=
+  cfg_ok_emission cfg = true /\
+  SInv l /\ FPos l /\ FUniq l /\ total_bal l + reward cfg (lb_height b) <= max_supply cfg /\
+  Forall (tx_ok cfg) (lb_txs b) /\ Forall stake_pos (lb_txs b) /\
+  NoDup (map tx_id (lb_txs b)) /\ ~ In (lb_hash b) (map tx_id (lb_txs b)) /\
+  (forall a, inc (acct_at l a) + nouts_sum (lb_txs b) + 4 < two64) /\
+  (forall a, nonce (acct_at l a) + N.of_nat (length (lb_txs b)) < two64).
+
+Lemma undo_block_upto_fund_order cfg genesis_addr l b top_h l1 :
+  block_hyps cfg l b ->
+  apply_block cfg genesis_addr l b top_h = Ok l1 ->
+  forall top', exists l2, remove_block cfg genesis_addr l1 b top' = Ok l2 /\ same_accounts l2 l /\
+    (forall id, match get_dlg l id, get_dlg l2 id with
+                | Some d, Some d' => dperm d d'
+                | None, None => True
+                | _, _ => False
+                end) /\ staked l2 = staked l.
+Proof.
+  intros (Hok & HI & HP & HU & Hb & Htx & Hsp & Hnd & Hbh & Hinc & Hnon) H top'.
+  exact (remove_apply_block_perm cfg genesis_addr l b top_h l1 Hok HI HP HU Hb Htx Hsp Hnd Hbh Hinc Hnon H top').
+Qed.
+
+Lemma undo_block_exact cfg genesis_addr l b top_h l1 :
+  block_hyps cfg l b ->
+  unstakes_last cfg l (lb_txs b) (lb_height b) (lb_hash b) top_h ->
+  apply_block cfg genesis_addr l b top_h = Ok l1 ->
+  forall top', exists l2, remove_block cfg genesis_addr l1 b top' = Ok l2 /\ same_accounts l2 l /\
+    dlgs l2 = dlgs l /\ (forall id, get_dlg l2 id = get_dlg l id) /\ staked l2 = staked l.
+Proof.
+  intros (Hok & HI & HP & _ & Hb & Htx & Hsp & Hnd & Hbh & Hinc & Hnon) Hlast H top'.
+  exact (remove_apply_block cfg genesis_addr l b top_h l1 Hok HI HP Hb Htx Hsp Hnd Hbh Hinc Hnon Hlast H top').
+Qed.
+
+Lemma undo_block_general cfg genesis_addr l b top_h lB :
+  block_hyps cfg l b ->
+  apply_block cfg genesis_addr l b top_h = Ok lB ->
+  forall l' top', leqv_p lB l' ->
+    (forall k, k = lb_hash b \/ In k (map tx_id (lb_txs b)) -> nget (dhist l') k = nget (dhist lB) k) ->
+    exists l2, remove_block cfg genesis_addr l' b top' = Ok l2 /\ leqv_p l l2 /\ dhist l2 = dhist l'.
+Proof.
+  intros (Hok & HI & HP & HU & Hb & Htx & Hsp & Hnd & Hbh & Hinc & Hnon).
+  exact (undo_block_perm cfg genesis_addr l b top_h lB Hok HI HP HU Hb Htx Hsp Hnd Hbh Hinc Hnon).
+Qed.
